@@ -921,6 +921,59 @@ func (c *Ctx) truncationRules(r *Report, prefix string) {
 			continue
 		}
 		f := c.NewFA(fn)
+		// octet decomposition: byte(v >> 8k) for k = 0..n-1 spells v big-endian; each conversion drops the higher
+		// octets on purpose, and nothing is lost as long as v < 2^(8n)
+		type octetConv struct {
+			cv *ssa.Convert
+			k  int64
+		}
+		decomp := map[ssa.Value][]octetConv{}
+		for _, b := range fn.Blocks {
+			for _, ins := range b.Instrs {
+				cv, ok := ins.(*ssa.Convert)
+				if !ok {
+					continue
+				}
+				if to, ok := typeBits(cv.Type()); !ok || to != 8 {
+					continue
+				}
+				base, k := cv.X, int64(0)
+				if sh, ok := cv.X.(*ssa.BinOp); ok && sh.Op == token.SHR {
+					if kc, ok := sh.Y.(*ssa.Const); ok {
+						if kv, ok := constInt64(kc.Value); ok && kv%8 == 0 {
+							base, k = sh.X, kv/8
+						}
+					}
+				}
+				decomp[base] = append(decomp[base], octetConv{cv, k})
+			}
+		}
+		partOfDecomposition := map[*ssa.Convert]string{}
+		for base, ocs := range decomp {
+			if len(ocs) < 2 {
+				continue
+			}
+			have := map[int64]bool{}
+			for _, oc := range ocs {
+				have[oc.k] = true
+			}
+			n := int64(0)
+			for have[n] {
+				n++
+			}
+			if int(n) != len(have) || n > 7 {
+				continue
+			}
+			for _, oc := range ocs {
+				facts := f.FactsAt(oc.cv.Block())
+				l := f.LFOf(base)
+				okLo, _ := f.Prove(l, facts)
+				okHi, _ := f.Prove(konst(int64(1)<<(8*uint(n))-1).add(l, -1), facts)
+				if okLo && okHi {
+					partOfDecomposition[oc.cv] = fmt.Sprintf("octet %d of the %d-octet big-endian spelling of a value below 2^%d", oc.k, n, 8*n)
+				}
+			}
+		}
 		for _, b := range fn.Blocks {
 			for _, ins := range b.Instrs {
 				cv, ok := ins.(*ssa.Convert)
@@ -933,6 +986,10 @@ func (c *Ctx) truncationRules(r *Report, prefix string) {
 					continue
 				}
 				if _, isConst := cv.X.(*ssa.Const); isConst {
+					continue
+				}
+				if why, ok := partOfDecomposition[cv]; ok {
+					r.ok(rule, fmt.Sprintf("%s: %s", c.FuncName(fn), c.SrcExpr(cv)), c.InstrPos(cv), why, true)
 					continue
 				}
 				lo, hi, _ := f.typeRange(cv.Type())
